@@ -91,9 +91,15 @@ def get_members_value(context):
                 func = getattr(arg.func, "id", None) or ast.unparse(arg.func)
                 return {"Function": func}
             else:
-                value = (
-                    arg.id if isinstance(arg, ast.Name) else ast.unparse(arg)
-                )
+                if isinstance(arg, ast.Name):
+                    value = arg.id
+                else:
+                    try:
+                        value = ast.unparse(arg)
+                    except ValueError:
+                        # an integer literal beyond the interpreter's
+                        # int -> str digit limit
+                        value = "..."
                 return {"Other": value}
 
 
